@@ -70,6 +70,10 @@ class Prop(BaseProp):
         trie.make_automaton()
         text = case['text']
         try:
+            if len(text) % 3 == 0:
+                # the same text asked for with other switches first: the answer below must not depend on it
+                list(trie.tokenize(text, include_unmatched=False))
+                list(trie.tokenize(text, include_unmatched=True, include_space=True))
             toks = [[t.start, t.end, t.string, T('none') if t.value is None else t.value] for t in trie.tokenize(text)]
         except Exception as e:
             return Verdict('spec', case, 'tokenize raised ' + type(e).__name__)
